@@ -132,7 +132,7 @@ Record submission : Type := mkSub { sb_msgs : list (bytes * bytes) (* canon, mar
 Definition dec_b (s : sexp) : option bytes := match s with B x => Some x | _ => None end.
 Definition dec_sub (s : sexp) : option submission :=
   match s with
-  | L [S k; L ms; L ls] => let? m := dec_list dec_pair ms in let? l := dec_list dec_b ls in Some (mkSub m l)
+  | L [S k; L ms; L ls; I _] => let? m := dec_list dec_pair ms in let? l := dec_list dec_b ls in Some (mkSub m l)
   | _ => None
   end.
 Definition dec_submitter (s : sexp) : option (list submission) :=
@@ -180,6 +180,7 @@ Record scn : Type := mkScn {
   s_listen : Z;
   s_cancel : Z;
   s_sens : bool;
+  s_recvfrom : Z;
   s_conns : list cscript;
   s_orcb : table;
   s_orca : table;
@@ -191,7 +192,7 @@ Record scn : Type := mkScn {
 
 Definition dec_scn (s : sexp) : option scn :=
   match s with
-  | L [S k; S _id; L [S _cfg; S entry; I usecfg; I noc; I rec; I lis; I can; I sens];
+  | L [S k; S _id; L [S _cfg; S entry; I usecfg; I noc; I rec; I lis; I can; I sens; I recvfrom];
        L conns; L (S _orc :: orc); L [S _subs; I substart; L subs]; L (S _rorc :: rorc); L (S _obs :: obs)] =>
     if is_sym k "scn" then
       let? cs := dec_list dec_cscript conns in
@@ -199,7 +200,7 @@ Definition dec_scn (s : sexp) : option scn :=
       let? sb := dec_list dec_submitter subs in
       let? ro := dec_list dec_pair rorc in
       let? ob := dec_list dec_oev obs in
-      Some (mkScn (is_sym entry "detector") (negb (usecfg =? 0)) noc rec lis can (negb (sens =? 0))
+      Some (mkScn (is_sym entry "detector") (negb (usecfg =? 0)) noc rec lis can (negb (sens =? 0)) recvfrom
                   cs (fst o) (snd o) substart sb ro ob)
     else None
   | _ => None
@@ -332,7 +333,8 @@ Definition compare_client (s : scn) (extra : Z -> option bytes) : option sexp :=
   let accs := obs_accs o in
   let lats := fit_lats s accs [] in
   let tr := model_trace s lats in
-  let mg := model_groups tr in
+  (* the consumer of msgsFromPanel starts receiving at s_recvfrom: earlier deliveries are handed over then *)
+  let mg := map (fun g => mkGrp (g_con g) (map (fun d => (Z.max (fst d) (s_recvfrom s), snd d)) (g_dlv g)) (g_dis g)) (model_groups tr) in
   let og := obs_groups o in
   if model_fuel_out tr then Some (L [sym "badcase"; sym "fuel"])
   else if negb (Nat.eqb (List.length (dial_times tr)) (List.length accs)) then
@@ -385,18 +387,19 @@ Definition compare_detector (s : scn) : option sexp :=
   | _, _, _ => Some (mism "content" "detector-no-result" [])
   end.
 
-(* first thing the panel sends on connection 0 *)
-Definition first_reply (s : scn) : option (Z * bytes) :=
-  match s_conns s with
-  | c :: _ =>
+(* first thing the panel sends on connection i *)
+Definition nth_reply (s : scn) (i : nat) : option (Z * bytes) :=
+  match nth_error (s_conns s) i with
+  | Some c =>
     (fix go (sc : script) : option (Z * bytes) :=
        match sc with
        | Seg t (b :: bs) :: _ => Some (t, b :: bs)
        | Seg _ [] :: r => go r
        | _ => None
        end) (script_of c)
-  | [] => None
+  | None => None
   end.
+Definition first_reply (s : scn) : option (Z * bytes) := nth_reply s 0.
 
 Definition run_with (judge : scn -> sexp) (line : list Z) : list Z :=
   match parse_sexp line with
